@@ -66,6 +66,10 @@ def canon_json(text) -> str:
         if isinstance(v, list):
             return [norm(x) for x in v]
         if isinstance(v, dict):
+            if "qualified_name" in v and "description" in v:
+                # a stored warning: identified by its name and data; the free text embeds formatted numbers ("CVRMSE > 1" vs
+                # "CVRMSE > 1.0" for the same threshold written as int or float) and is not part of the JSON value compared
+                v = {k: x for k, x in v.items() if k != "description"}
             return {str(k): norm(x) for k, x in v.items()}
         return repr(v)
     return json.dumps(norm(json.loads(text)), sort_keys=True)
@@ -78,7 +82,7 @@ def warn_names(ws):
 def hash_warnings(ws) -> str:
     out = []
     for w in ws:
-        out.append([w.qualified_name, w.description, json.dumps(w.data, sort_keys=True, default=str)])
+        out.append([w.qualified_name, json.dumps(w.data, sort_keys=True, default=str)])       # not the free text, see canon_json
     return sha(json.dumps(out))
 
 
